@@ -62,7 +62,7 @@ func c06after(v *vServer, vc *vConn, label string) {
 	vSettle(func() bool { return nd.Goroutines() == 0 })
 	nd.Assert(nd.Goroutines() == 0, label+"-goroutine-left-alive-after-connection-ended")
 	_, rest := vLines(vc.out)
-	nd.Assert(rest == "", label+"-output-whole-lines")
+	nd.Assert(rest == "" || vc.writeErr != nil, label+"-output-whole-lines")
 	for _, o := range v.sess.calls {
 		if o.op == "Login" || o.op == "Create" || o.op == "Select" || o.op == "Rename" {
 			nd.Assert(len(o.s1) <= 4096 && len(o.s2) <= 4096, label+"-buffered-string-over-4096")
@@ -105,7 +105,7 @@ func VerifC06Cut() {
 	ti := nd.Concretize(nd.Choice(len(c06transcripts)))
 	tr := c06transcripts[ti]
 	cut := nd.Concretize(nd.Choice(len(tr.text) + 1))
-	kind := nd.Concretize(nd.Choice(3))
+	kind := nd.Concretize(nd.Choice(4))
 	in := []byte(tr.text[:cut])
 	caps := imap.CapSet{imap.CapIMAP4rev1: {}, imap.CapLiteralPlus: {}}
 	v := vNewServer(caps, true)
@@ -121,6 +121,11 @@ func VerifC06Cut() {
 		vc.errAt = len(vc.in)
 	case 2:
 		vc.silent = true
+	case 3:
+		// the peer is gone for writing: the server's output fails from some byte on
+		// (0 = before the greeting)
+		vc.writeErr = io.ErrClosedPipe
+		vc.writeAt = []int{0, 7, 60, 200}[nd.Concretize(nd.Choice(4))]
 	}
 	c := newConn(vc, v.srv)
 	c.serve()
